@@ -11,7 +11,6 @@ import (
 	"strings"
 
 	"github.com/simimpact/srsim/pkg/engine"
-	"github.com/simimpact/srsim/pkg/engine/info"
 	"github.com/simimpact/srsim/pkg/key"
 	"github.com/simimpact/srsim/pkg/logic/gcs/eval"
 	"github.com/simimpact/srsim/pkg/logic/gcs/parse"
@@ -24,14 +23,11 @@ func init() { components["eval"] = gcsComp{mode: "eval"} }
 // of characters are used by the language core.
 type evalEngine struct {
 	engine.Engine
-	rnd *rand.Rand
+	rnd   *rand.Rand
+	world *wWorld // the state the condition builtins see (gcsworld.go); nil: no units
 }
 
-func (e *evalEngine) Rand() *rand.Rand           { return e.rnd }
-func (e *evalEngine) Characters() []key.TargetID { return nil }
-func (e *evalEngine) CharacterInfo(key.TargetID) (info.Character, error) {
-	return info.Character{}, nil
-}
+func (e *evalEngine) Rand() *rand.Rand { return e.rnd }
 
 // canonical rendering of one printed line: numbers by value (the text of 3 and 3.0 is the same),
 // everything else by its bytes
@@ -43,7 +39,7 @@ func printedRec(line string) *wire.Rec {
 }
 
 // gcsEvalRequest handles `eval <hex> <calls> <draws>` in the worker.
-func gcsEvalRequest(out io.Writer, src []byte, calls, draws string) {
+func gcsEvalRequest(out io.Writer, src []byte, calls, draws, world string) {
 	res, err := parse.New(string(src)).Parse()
 	if err != nil || res == nil {
 		fmt.Fprintf(out, "perr\n")
@@ -56,7 +52,7 @@ func gcsEvalRequest(out io.Writer, src []byte, calls, draws string) {
 			srcRand.q = append(srcRand.q, int64(f*(1<<63)))
 		}
 	}
-	eng := &evalEngine{rnd: rand.New(srcRand)}
+	eng := &evalEngine{rnd: rand.New(srcRand), world: parseWorld(world)}
 	// capture what print writes to standard output
 	old := os.Stdout
 	pr, pw, _ := os.Pipe()
@@ -372,6 +368,8 @@ func (g *pgen) illTyped() string {
 		"print(1.0 / 0);", "print(5 / 0.5);", "print(7 / 2 + 0.5);", "print(len([1,2,3]) + 0.5);", "print(0 / 0.0 == 0 / 0.0);",
 		"for let z = unknown_a; z < 2; z = z + 1 { print(z); }", "for let z = 0; z < 2; z = z + unknown_b { print(z); }",
 		"register_skill_cb(1, fn(a, b, c) { return attack(First); });", "register_ult_cb(2, fn(a, b, c, d) { return null; });",
+		"fn ff() { return 1 / 0; } print(ff());", "while undefined_c { print(1); }", "switch 1 { case \"s\": print(1); }", "fn gg() { break; } print(gg());", "print(1 + \"a\");",
+		"if \"s\" { print(1); } else { print(2); }", "fn hh() { return 1; } fn hh() { return 2; }", "print(first(sort([3, 1, 2], fn(a, b) { print(a); })));", "print(any([1, 2], fn(a) { return nope; }));",
 		"set_default_action(1, skill(First));", "set_default_action(\"x\", attack(First));", "print(rand(1));")
 }
 
@@ -427,6 +425,29 @@ func evalGen(r *rand.Rand, tier string, n int) []*wire.Case {
 		"let x = 5; fn three(p, x, q) { return p * 100 + x * 10 + q; } print(three(x, x + 1, x + 2)); print(x);")
 	add("d-map-field-order", "fn p(x) { print(x); return x; } let m = [zz = p(3), b = p(2), a = p(1), b = p(4)]; print(len(m));",
 		"let m = [k2 = rand(), k1 = rand()]; print(1);", "let m = [b = 1 / 0, a = nope];")
+	// runtime errors and odd values in every position that propagates them
+	add("d-error-positions", "print(nope_fn(1));", "print((1 / 0)(2));", "fn f() { break; } print(f());", "fn f() { continue; } f(); print(1);", "fn f() { let a = 1; } print(f());",
+		"print(-\"s\");", "print(-null);", "print(1 + \"a\");", "print(1 < null);", "print(1 && \"s\");", "print(\"s\" || 1);", "print([1] + 1);", "print(1 - [1]);",
+		"fn f() { return 1 / 0; } print(f()); print(2);", "fn f() { return nope; } f();", "while nope { print(1); }", "while \"s\" + 1 { print(1); }",
+		"while \"s\" { print(1); break; }", "if \"s\" { print(1); } else { print(2); }", "if fn() { return 1; } { print(1); } else { print(2); }", "if null { print(1); } else { print(2); }",
+		"if [1] { print(1); } else { print(2); }", "if [] { print(1); } else { print(2); }", "if print { print(1); } else { print(2); }",
+		"for let i = 0; i < nope; i = i + 1 { print(i); }", "for nope { print(1); }", "for let i = 0; i < 2; i = i + 1 { print(nope); }", "for let i = 0; \"s\"; i = i + 1 { print(i); if i > 1 { break; } }",
+		"switch 1 { case \"s\": print(1); }", "switch 1 { case null: print(1); default: print(2); }", "switch 1 { case nope: print(1); }", "switch 1 { case 2: print(2); } print(3);",
+		"switch nope { case 1: print(1); }", "switch 1 { case 1: print(nope); default: print(2); }", "switch 1 { case 1 / 0: print(1); }",
+		"fn f() { return 1; } fn f() { return 2; } print(f());", "let f = 1; fn f() { return 2; } print(f);", "fn f() { return 1; } let f = 2; print(f);", "fn print() { return 1; }",
+		"print(len(nope));", "print(sort(nope, fn(a, b) { return a < b; }));", "print(any(nope, fn(a) { return a; }));", "print(sort([2, 1], fn(a, b) { return nope; }));",
+		"print(first(sort([3, 1, 2], fn(a, b) { print(a); })));", "print(any([1, 2], fn(a) { print(a); }));", "print(any([1, 2], fn(a) { return nope; }));",
+		"print(first(sort([3, 1, 2], fn(a, b) { if a > 2 { return nope; } return a < b; })));", "print(any([0, \"s\"], fn(a) { return a; }));", "print(first(sort([2, 1, 3], fn(a, b) { return \"s\"; })));",
+		"print(attack(nope));", "print(type(attack(First)));", "print(skill(\"s\"));", "register_skill_cb(nope, fn() { return attack(First); });", "register_ult_cb(1 / 0, fn() { return null; });",
+		"register_skill_cb(1, nope);", "register_ult_cb(1, 5);", "let x = [a = 1]; x = 2; print(x);", "let x = 1; x = nope; print(x);", "let y = nope; print(1);", "{ print(1); print(nope); print(2); }")
+	cases = append(cases, &wire.Case{ID: "d-callback-errors", Ops: []*wire.Rec{
+		evalOp("register_skill_cb(1, fn() { return skill(nope); });\nregister_ult_cb(1, fn() { return 1 / 0; });\nregister_skill_cb(2, fn() { return attack(First) + 1; });", "n1,u,n2,n1", nil),
+		evalOp("register_skill_cb(1, fn(t) { return skill(t); });\nregister_ult_cb(2, fn() { print(1); return ult(nope); });\nset_default_action(2, attack(nope));", "n1,u,d2", nil),
+		evalOp("let c = 0;\nregister_ult_cb(1, fn() { c = c + 1; if c == 2 { return nope; } return ult(First); });\nregister_ult_cb(1, fn() { return ult(LowestHP); });", "u,u,u", nil),
+	}})
+	add("d-rare-forms", "let i = 5; for i = 0; i < 3; i = i + 1 { print(i); } print(i);", "fn f(a, a) { return a; } print(f(1, 2));", "let g = fn(a, a) { return a; }; print(g(1, 2));",
+		"fn f() { fn g() { return 1; } return g() + 1; } print(f()); print(f());", "switch 1 { default: print(1); }", "let x = fn() { return 3; }; print(x());", "print(fn(a) { return a * 2; }(4));",
+		"let print = 1;", "let len = 2; print(len);", "fn len(x) { return 7; } print(len([1]));", "let First = 5; print(First);", "First = 7; print(First); register_skill_cb(1, fn() { return attack(First); });")
 	add("d-scope", "let x = 1; { let x = 2; print(x); x = 3; print(x); } print(x);", "let x = 1; if 1 { x = 5; let y = 2; } print(x); print(y);",
 		"let x = 1; fn f() { return x + 1; } { let x = 10; print(f()); } print(f());", "fn g(x) { x = x + 1; return x; } let x = 5; print(g(x)); print(x);")
 	add("d-loops", "let i = 0; while i < 5 { i = i + 1; if i == 2 { continue; } if i == 4 { break; } print(i); }",
@@ -448,9 +469,54 @@ func evalGen(r *rand.Rand, tier string, n int) []*wire.Case {
 		evalOp("register_skill_cb(1, fn() { return ult(First); });\nregister_skill_cb(2, fn() { return 5; });\nregister_skill_cb(3, fn() { print(1); });", "n1,n2,n3", nil),
 		evalOp("print(rand()); print(rand() < 0.5); let r = rand(); print(r * 2);", "-", []float64{0.25, 0.75, 0.5}),
 	}})
+	// the condition builtins over a small fixed world: every builtin on every kind of unit and on absent ids
+	{
+		w := &wWorld{sp: 3, units: []wUnit{
+			{id: 1, class: "c", alive: true, key: "danheng", energy: 100, maxEnergy: 100, hp: 0.5, shielded: true, shields: []string{"k1"}, mods: []string{"atk_up"}, status: map[int]int{1: 2}, skill: 1, elem: 7, adj: []int{2}},
+			{id: 2, class: "c", alive: false, key: "hook", energy: 99.5, maxEnergy: 120, hp: 0, status: map[int]int{}, skill: 2, elem: 2, adj: []int{1}},
+			{id: 4, class: "e", alive: true, hp: 1, stance: 0, maxStnc: 90, mods: []string{"burn", "mark"}, status: map[int]int{2: 3, 0: 1}, weak: []int{2, 3}, adj: []int{5}},
+			{id: 5, class: "e", alive: true, hp: 0.25, stance: 30, maxStnc: 120, status: map[int]int{}, weak: []int{1}, adj: []int{4}},
+			{id: 6, class: "n", alive: true, hp: 1, status: map[int]int{}},
+		}}
+		var ops []*wire.Rec
+		fns := []string{"ult_ready", "energy", "max_energy", "hp_ratio", "weakness_broken", "stance", "max_stance", "is_shielded", "skill_ready", "element", "is_valid", "is_alive", "is_character", "is_enemy"}
+		for _, f := range fns {
+			var sb strings.Builder
+			for _, id := range []string{"1", "2", "4", "5", "6"} {
+				sb.WriteString("print(" + f + "(" + id + "));\n")
+			}
+			ops = append(ops, evalOp(sb.String(), "-", nil).S("world", w.String()))
+			for _, id := range []string{"3", "0", "1.0", "danheng", "hook", "\"s\""} {
+				ops = append(ops, evalOp("print("+f+"("+id+"));", "-", nil).S("world", w.String()))
+			}
+			ops = append(ops, evalOp("print("+f+"());", "-", nil).S("world", w.String()), evalOp("print("+f+"(1, 2));", "-", nil).S("world", w.String()))
+		}
+		for _, p := range []string{"print(has_modifier(4, \"burn\")); print(has_modifier(4, \"freeze\")); print(has_modifier(1, \"atk_up\"));", "print(has_modifier(9, \"burn\"));", "print(has_modifier(4, 1));", "print(has_modifier(4));",
+			"print(modifier_count(4, STATUS_DEBUFF)); print(modifier_count(4, STATUS_BUFF)); print(modifier_count(1, 1)); print(modifier_count(4, UNKNOWN_STATUS)); print(modifier_count(4, 9));", "print(modifier_count(3, 1));", "print(modifier_count(4, \"s\"));",
+			"print(has_shield(1, \"k1\")); print(has_shield(1, \"k2\")); print(has_shield(4, \"k1\"));", "print(has_shield(0, \"k1\"));", "print(has_shield(1, 1));",
+			"print(has_weakness(4, FIRE)); print(has_weakness(4, ICE)); print(has_weakness(4, PHYSICAL)); print(has_weakness(5, 1)); print(has_weakness(5, 99));", "print(has_weakness(1, FIRE));", "print(has_weakness(6, FIRE));", "print(has_weakness(4, \"FIRE\"));",
+			"print(skill_points()); print(skill_points() + 0.5);", "print(skill_points(1));", "print(len(enemies())); print(first(enemies())); print(len(characters())); print(first(characters()));", "print(enemies(1));", "print(characters(1));",
+			"print(len(adjacent_to(1))); print(first(adjacent_to(4))); print(len(adjacent_to(6))); print(first(adjacent_to(6)));", "print(adjacent_to(3));", "print(adjacent_to());",
+			"print(danheng); print(hook); print(FIRE); print(STATUS_DEBUFF); print(ENEMIES); print(HUNT); print(ATK_PERCENT); print(type(energy)); print(type(danheng));", "print(march7th);",
+			"let FIRE = 1; print(FIRE); print(has_weakness(4, FIRE));", "FIRE = 3; print(has_weakness(4, FIRE));", "let energy = 5; print(energy);", "fn energy(x) { return 1; } print(energy(1));",
+			"print(any(enemies(), fn(e) { return weakness_broken(e); })); print(first(sort(enemies(), fn(a, b) { return hp_ratio(a) < hp_ratio(b); })));", "print(any(characters(), fn(c) { return ult_ready(c); }));",
+			"print(any(characters(), fn(c) { return stance(c) > 0; }));", "let m = enemies(); let s = sort(m, fn(a, b) { return a > b; }); print(first(m)); print(first(enemies()));"} {
+			ops = append(ops, evalOp(p, "-", nil).S("world", w.String()))
+		}
+		ops = append(ops, evalOp("register_skill_cb(danheng, fn() { if skill_ready(1) && skill_points() > 1 { return skill(LowestHP); } return attack(First); });\nregister_skill_cb(hook, fn() { if skill_ready(2) { return skill(First); } return attack(First); });\nregister_ult_cb(1, fn() { if ult_ready(danheng) { return ult(First); } return null; });\nregister_ult_cb(2, fn() { if ult_ready(hook) { return ult(First); } return null; });", "n1,n2,u", nil).S("world", w.String()))
+		cases = append(cases, &wire.Case{ID: "d-conditions", Ops: ops})
+		cases = append(cases, &wire.Case{ID: "d-conditions-empty-world", Ops: []*wire.Rec{
+			evalOp("print(len(enemies())); print(len(characters())); print(skill_points()); print(is_valid(1)); print(is_character(1)); print(is_enemy(0));", "-", nil),
+			evalOp("print(energy(1));", "-", nil), evalOp("print(first(enemies()));", "-", nil), evalOp("print(FIRE); print(type(hp_ratio));", "-", nil), evalOp("print(ult_ready(1));", "-", nil)}})
+	}
 	for i := 0; i < n; i++ {
 		var ops []*wire.Rec
 		for j := 0; j < 3; j++ {
+			if (i+j)%4 == 3 {
+				p, calls, w := genWorldProgram(r)
+				ops = append(ops, evalOp(p, calls, nil).S("world", w.String()))
+				continue
+			}
 			p, calls := genProgram(r)
 			ops = append(ops, evalOp(p, calls, nil))
 		}
